@@ -27,14 +27,15 @@ def _returned_names(fn):
   return out
 
 
-def productions(fn):
+def productions(fn, extra=()):
+  """extra: names of further local lists to describe (besides returned ones)."""
   out = []
   # comprehensions returned directly (or through a local returned as is)
   direct = []
   for x in walk_local(fn):
     if isinstance(x, ast.Return) and isinstance(x.value, ast.ListComp):
       direct.append(x.value)
-  res = _returned_names(fn)
+  res = _returned_names(fn) | set(extra)
   for x in walk_local(fn):
     if isinstance(x, ast.Assign) and isinstance(x.value, ast.ListComp) and \
         any(isinstance(t, ast.Name) and t.id in res for t in x.targets):
